@@ -79,6 +79,55 @@ def o_views(ctx):
     return out
 
 
+def o_views_after_edit(ctx):
+    """the views are views OF THE RECORDS: after an earlier read, and after editing a paragraph record,
+    X_runs still equals, address by address, the run strings of the records in X_pars, and X still equals
+    X_runs with the runs of every paragraph concatenated (round-7 seed C03-runs-cached-per-instance)"""
+    import io
+    import warnings
+
+    from docx2python import docx2python
+
+    out = []
+    keys = sorted(ctx["per"])
+    if not keys:
+        return out
+    html, dup = keys[len(ctx["data"]) % len(keys)]
+    with warnings.catch_warnings():
+        warnings.simplefilter("ignore")
+        d = docx2python(io.BytesIO(ctx["data"]), html=html, duplicate_merged_cells=dup)
+        try:
+            for ty in ("body", "header", "footnotes"):
+                try:
+                    _first = (getattr(d, ty + "_runs"), getattr(d, ty), d.text)       # an earlier read
+                    pars = getattr(d, ty + "_pars")
+                except Exception:  # noqa: BLE001
+                    continue
+                recs = [p for tb in pars for r in tb for c in r for p in c]
+                edited = False
+                for p in recs:
+                    for run in p.runs:
+                        if run.text:
+                            run.text += "Z"                                             # edit a record
+                            edited = True
+                            break
+                    if edited:
+                        break
+                if not edited:
+                    continue
+                runs = getattr(d, ty + "_runs")
+                exp = [[[[p.run_strings for p in c] for c in r] for r in tb] for tb in pars]
+                if runs != exp:
+                    out.append(("views", f"after editing a record: {ty}_runs != run strings of {ty}_pars (html={html})"))
+                    return out
+                if getattr(d, ty) != [[[["".join(p) for p in c] for c in r] for r in tb] for tb in runs]:
+                    out.append(("views", f"after editing a record: {ty} != join of {ty}_runs (html={html})"))
+                    return out
+        finally:
+            d.close()
+    return out
+
+
 def o_document_concat(ctx):
     """document* == header + body + footer + footnotes + endnotes, read from the API itself"""
     import io
